@@ -306,6 +306,10 @@ def run(ctx, report: Report) -> None:
     from .e2ematch import state_pipeline_table
     state_pipeline_table(ctx, r7)
 
+    from .e2ematch import default_namespace_state_table
+    default_namespace_state_table(ctx, r7)
+
+
 
 
 
